@@ -97,6 +97,15 @@ class Evaluator:
             return Seq(tuple(items), "tuple" if isinstance(e, ast.Tuple) else "list")
         if isinstance(e, ast.Subscript):
             v = self.ev(e.value)
+            if isinstance(v, Const) and isinstance(v.value, (str, bytes, tuple)):
+                if isinstance(e.slice, ast.Slice):
+                    return Const(v.value[slice(self._const_or_none(e.slice.lower), self._const_or_none(e.slice.upper), self._const_or_none(e.slice.step))])
+                i = self.ev(e.slice)
+                if isinstance(i, Const) and isinstance(i.value, int):
+                    try:
+                        return Const(v.value[i.value])
+                    except IndexError:
+                        raise Raised("IndexError")
             if isinstance(v, Seq):
                 if isinstance(e.slice, ast.Slice):
                     lo = self._const_or_none(e.slice.lower)
@@ -156,6 +165,8 @@ class Evaluator:
         if isinstance(f, ast.Name):
             if f.id == "len" and len(e.args) == 1:
                 v = self.ev(e.args[0])
+                if isinstance(v, Const) and isinstance(v.value, (str, bytes, tuple, list, dict)):
+                    return Const(len(v.value))
                 if isinstance(v, Seq):
                     return Const(len(v.items))
                 if isinstance(v, Sym):
@@ -189,6 +200,10 @@ class Evaluator:
                 return v
             if f.id in ("ValueError", "TypeError", "KeyError", "RuntimeError"):
                 return App(f.id, ())
+        if isinstance(f, ast.Attribute) and f.attr in ("startswith", "endswith", "strip", "lower", "upper") and all(isinstance(a, ast.Constant) for a in e.args):
+            v = self.ev(f.value)
+            if isinstance(v, Const) and isinstance(v.value, str):
+                return Const(getattr(v.value, f.attr)(*[a.value for a in e.args]))
         raise GiveUp("call not modelled: " + ast.unparse(e)[:40], e)
 
     def _compare(self, e: ast.Compare) -> bool:
